@@ -372,6 +372,41 @@ def _run(prop, files, extra):
     return ctx
 
 
+def _patched_run(args):
+    """worker: apply one stored patch to a scratch copy of the current tree and run the property's rules on it"""
+    import importlib
+
+    prop, repo, overlay, kind, name, pp = args
+    tmp = tempfile.mkdtemp(prefix=f'sa_{kind}_')
+    out = {'status': 'ok', 'failed_rules': [], 'first_failure': None, 'error': None}
+    try:
+        subprocess.run(f'git -C {repo} archive HEAD | tar -x -C {tmp}', shell=True, check=True, capture_output=True)
+        # analyse the working tree, not HEAD: overlay the current files
+        for rel, text in overlay.items():
+            os.makedirs(os.path.dirname(os.path.join(tmp, rel)), exist_ok=True)
+            with open(os.path.join(tmp, rel), 'w', encoding='utf-8') as fh:
+                fh.write(text)
+        r = subprocess.run(['patch', '-p1', '-s', '--no-backup-if-mismatch', '-i', pp], cwd=tmp, capture_output=True, text=True)
+        if r.returncode != 0:
+            out['status'] = 'skip'
+            return out
+        c = Ctx(prop, Corpus(tmp), tier='thorough', quiet=True, use_known=True)
+        try:
+            importlib.import_module(f'sa.rules.{prop.lower()}').run(c)
+        except Exception as e:  # AnalysisError or an internal error: "not decided" (established violations stay)
+            out['error'] = f'{type(e).__name__}: {e}'[:300]
+        if c.failures:
+            out['failed_rules'] = sorted({o.rule for o in c.failures})
+            o = c.failures[0]
+            out['first_failure'] = f'{o.rule} {o.site} {o.what}'[:400]
+    except Exception as e:
+        out['status'] = 'ok'
+        out['error'] = f'{type(e).__name__}: {e}'[:300]
+    finally:
+        shutil.rmtree(tmp, ignore_errors=True)
+    return out
+
+
 def run(ctx, prop):
     """Called by check.py in the thorough tier when the current tree has no violation."""
     files = dict(ctx.corpus.files)
@@ -412,94 +447,74 @@ def run(ctx, prop):
             raise AnalysisError(f'self-test {prop}/{nid}: rule set changed under a neutral transform: {sorted({r for r, _ in base} ^ {r for r, _ in got})}')
         stats['neutral_runs'] += 1
         print(f'SELFTEST {prop} neutral {nid}: silent, same rules')
-    # independently seeded defects
-    sdir = os.path.join(os.path.dirname(os.path.dirname(os.path.abspath(__file__))), 'seeded')
-    if os.path.isdir(sdir) and ctx.corpus.repo:
-        for name in sorted(os.listdir(sdir)):
-            mp = os.path.join(sdir, name, 'meta.json')
-            pp = os.path.join(sdir, name, 'patch.diff')
-            if not (os.path.exists(mp) and os.path.exists(pp)):
-                continue
-            meta = json.load(open(mp))
-            expect = prop in meta.get('checks_flagging', {}) and meta['checks_flagging'][prop].get('exit') == 1
-            if meta.get('property') != prop and not expect:
-                continue
-            tmp = tempfile.mkdtemp(prefix='sa_seed_')
-            try:
-                subprocess.run(f'git -C {ctx.corpus.repo} archive HEAD | tar -x -C {tmp}', shell=True, check=True, capture_output=True)
-                # analyse the working tree, not HEAD: overlay current files
-                for rel, text in {**files, **extra}.items():
-                    os.makedirs(os.path.dirname(os.path.join(tmp, rel)), exist_ok=True)
-                    with open(os.path.join(tmp, rel), 'w', encoding='utf-8') as fh:
-                        fh.write(text)
-                r = subprocess.run(['patch', '-p1', '-s', '--no-backup-if-mismatch', '-i', pp], cwd=tmp, capture_output=True, text=True)
-                if r.returncode != 0:
-                    print(f'SELFTEST {prop} seeded {name}: patch does not apply to the current tree (skipped)')
-                    continue
-                c4_corpus = Corpus(tmp)
-                c4 = Ctx(prop, c4_corpus, tier='thorough', quiet=True, use_known=True)
-                import importlib
-
-                try:
-                    importlib.import_module(f'sa.rules.{prop.lower()}').run(c4)
-                    hit = bool(c4.failures)
-                except AnalysisError:
-                    hit = bool(c4.failures)  # a violation established before the analysis gave up stays a violation
-                stats['seeded_patches'] += 1
-                if hit:
-                    stats['seeded_caught'] += 1
-                    print(f'SELFTEST {prop} seeded {name}: reported by {sorted({o.rule for o in c4.failures})}')
-                elif expect:
-                    raise AnalysisError(f'self-test {prop}: seeded defect {name} was caught when it was recorded but is no longer reported')
-                else:
-                    stats['seeded_expected_miss'] += 1
-                    print(f'SELFTEST {prop} seeded {name}: not reported (recorded as a miss of this check in meta.json)')
-            finally:
-                shutil.rmtree(tmp, ignore_errors=True)
-    # independently written behaviour-preserving refactorings: the check must stay silent on every one
-    bdir = os.path.join(os.path.dirname(os.path.dirname(os.path.abspath(__file__))), 'benign')
+    # independently seeded defects and behaviour-preserving refactorings: each patch is applied to a scratch copy of the
+    # current tree and analysed in a worker process (the patches are independent of each other)
+    root = os.path.dirname(os.path.dirname(os.path.abspath(__file__)))
+    sdir, bdir = os.path.join(root, 'seeded'), os.path.join(root, 'benign')
     stats['benign_refactorings'] = 0
-    if os.path.isdir(bdir) and ctx.corpus.repo:
-        import importlib
-
-        for name in sorted(os.listdir(bdir)):
-            pp = os.path.join(bdir, name, 'patch.diff')
-            if not os.path.exists(pp):
-                continue
-            tmp = tempfile.mkdtemp(prefix='sa_benign_')
-            try:
-                subprocess.run(f'git -C {ctx.corpus.repo} archive HEAD | tar -x -C {tmp}', shell=True, check=True, capture_output=True)
-                for rel, text in {**files, **extra}.items():
-                    os.makedirs(os.path.dirname(os.path.join(tmp, rel)), exist_ok=True)
-                    with open(os.path.join(tmp, rel), 'w', encoding='utf-8') as fh:
-                        fh.write(text)
-                r = subprocess.run(['patch', '-p1', '-s', '--no-backup-if-mismatch', '-i', pp], cwd=tmp, capture_output=True, text=True)
-                if r.returncode != 0:
-                    print(f'SELFTEST {prop} benign {name}: patch does not apply to the current tree (skipped)')
+    tasks = []
+    if ctx.corpus.repo:
+        overlay = {**files, **extra}
+        if os.path.isdir(sdir):
+            for name in sorted(os.listdir(sdir)):
+                mp, pp = os.path.join(sdir, name, 'meta.json'), os.path.join(sdir, name, 'patch.diff')
+                if not (os.path.exists(mp) and os.path.exists(pp)):
                     continue
-                c5 = Ctx(prop, Corpus(tmp), tier='thorough', quiet=True, use_known=True)
-                expected_undecided = []
+                meta = json.load(open(mp))
+                expect = prop in meta.get('checks_flagging', {}) and meta['checks_flagging'][prop].get('exit') == 1
+                if meta.get('property') != prop and not expect:
+                    continue
+                tasks.append(('seed', name, pp, expect, []))
+        if os.path.isdir(bdir):
+            for name in sorted(os.listdir(bdir)):
+                pp = os.path.join(bdir, name, 'patch.diff')
+                if not os.path.exists(pp):
+                    continue
+                und = []
                 mpath = os.path.join(bdir, name, 'meta.json')
                 if os.path.exists(mpath):
                     try:
-                        expected_undecided = json.load(open(mpath)).get('expected_undecided', [])
+                        und = json.load(open(mpath)).get('expected_undecided', [])
                     except Exception:
-                        expected_undecided = []
-                try:
-                    importlib.import_module(f'sa.rules.{prop.lower()}').run(c5)
-                except Exception as e:  # AnalysisError or an internal error: both mean "not decided"
-                    if prop in expected_undecided and not c5.failures:
-                        stats['benign_undecided'] = stats.get('benign_undecided', 0) + 1
-                        continue  # recorded: the refactoring removes an anchor this check names; "cannot decide" is the honest answer
-                    if not c5.failures:
-                        raise AnalysisError(f'self-test {prop}: analysis gives up on the behaviour-preserving refactoring benign/{name}: {e}')
-                if c5.failures:
-                    o = c5.failures[0]
-                    raise AnalysisError(f'self-test {prop}: FALSE ALARM on the behaviour-preserving refactoring benign/{name}: {o.rule} {o.site} {o.what}')
-                stats['benign_refactorings'] += 1
-            finally:
-                shutil.rmtree(tmp, ignore_errors=True)
-        print(f'SELFTEST {prop} benign: silent on {stats["benign_refactorings"]} stored refactorings')
+                        und = []
+                tasks.append(('benign', name, pp, False, und))
+    results = []
+    if tasks:
+        import concurrent.futures as _cf
+        import multiprocessing as _mp
+
+        workers = max(1, min(len(tasks), int(os.environ.get('VERIF_JOBS', '0') or 0) or (os.cpu_count() or 2)))
+        payload = [(prop, ctx.corpus.repo, overlay, kind, name, pp) for kind, name, pp, _e, _u in tasks]
+        try:
+            with _cf.ProcessPoolExecutor(max_workers=workers, mp_context=_mp.get_context('fork')) as ex:
+                results = list(ex.map(_patched_run, payload, chunksize=1))
+        except Exception:  # no process pool available: run in this process
+            results = [_patched_run(x) for x in payload]
+    for (kind, name, pp, expect, und), r in zip(tasks, results):
+        if r['status'] == 'skip':
+            print(f'SELFTEST {prop} {kind} {name}: patch does not apply to the current tree (skipped)')
+            continue
+        if kind == 'seed':
+            stats['seeded_patches'] += 1
+            if r['failed_rules']:
+                stats['seeded_caught'] += 1
+                print(f'SELFTEST {prop} seeded {name}: reported by {r["failed_rules"]}')
+            elif expect:
+                raise AnalysisError(f'self-test {prop}: seeded defect {name} was caught when it was recorded but is no longer reported')
+            else:
+                stats['seeded_expected_miss'] += 1
+                print(f'SELFTEST {prop} seeded {name}: not reported (recorded as a miss of this check in meta.json)')
+        else:
+            if r['failed_rules']:
+                raise AnalysisError(f'self-test {prop}: FALSE ALARM on the behaviour-preserving refactoring benign/{name}: {r["first_failure"]}')
+            if r['error']:
+                if prop in und:
+                    stats['benign_undecided'] = stats.get('benign_undecided', 0) + 1
+                    continue  # recorded: the refactoring removes an anchor this check names; "cannot decide" is the honest answer
+                raise AnalysisError(f'self-test {prop}: analysis gives up on the behaviour-preserving refactoring benign/{name}: {r["error"]}')
+            stats['benign_refactorings'] += 1
+    if any(k == 'benign' for k, *_ in tasks):
+        print(f'SELFTEST {prop} benign: silent on {stats["benign_refactorings"]} stored refactorings ({stats.get("benign_undecided", 0)} recorded as undecided)')
     ctx.extra_evidence = dict(getattr(ctx, 'extra_evidence', None) or {})
     ctx.extra_evidence['self_validation'] = {**stats, 'variant_samples': samples[:6]}
     print(f'SELFTEST {prop}: {stats}')
